@@ -44,6 +44,13 @@ func init() {
 		Scen:   []ScenBudget{{"subs", 4000, 200000}},
 	})
 	addCheck(&CheckSpec{
+		Property: "C11", Level: "exploration", OwnsPanics: true,
+		Rule:   "storelin scenario: 2-4 client goroutines execute random read/write transactions (Value, Exists, Create, Update, Delete in any order and number, then Close) over ids a,b,c and the empty id, heavily contended on one id; mockstore, and badgerstore on real BadgerDB (typed/untyped, prefix empty/set/dotted, BeforeChange veto, wrong-type values); yields between calls and at the instrumented points before/inside/after each database transaction.",
+		Oracle: "(1) porcupine linearizability check of the recorded history (invoke/return stamped with the simulator's event sequence numbers, partitioned by id) against a KV model of the documented contract; Unknown is counted as inconclusive, never reported; (2) call-by-call error contract (Create on existing id fails with an error that is or wraps store.ErrDuplicate; Update/Delete/Value on a missing id with store.ErrNotFound); (3) isolation: no call of another client's transaction on the id returns while a write transaction is open, and for mockstore the real lock is probed with TryLock/TryRLock after every step against the harness's transaction table; (4) callbacks: exactly one OnChange per successful mutation on the caller's task with before equal to the previous after per id, none for failed operations; final reads included in the history.",
+		Scen:   []ScenBudget{{"storelin", 2500, 120000}},
+		Assumptions: []string{"jirenius/keylock is replaced by a scheduler-visible stub with the same API and RW semantics", "mockstore transactions are entered only when the harness's own table says they will not block (sync.RWMutex waits are invisible to synctest); the real lock is probed after every step"},
+	})
+	addCheck(&CheckSpec{
 		Property: "C07", Level: "exploration",
 		Rule:   "transport monitor on every Publish of the requests and core scenarios: results/models/collections/event payloads that are nil, nested, need escaping or cannot be marshalled; every meta combination on HTTP and non-HTTP requests; marshal failures and publish errors as injected faults.",
 		Oracle: "independent validator written from the RES protocol text: subject is a publishable NATS subject of a documented form (reply inbox handed out by the peer, event.<rid>.<name>, system.reset, system.tokenReset, conn.<cid>.token); payload has the documented shape for its kind (response with exactly one of result/resource/error, error with string code and message, meta only for HTTP requests, pre-response timeout:\"<ms>\", per-event fields).",
